@@ -653,6 +653,31 @@ Ltac bindinv H :=
          | (do _ <- ?m; _) = Ok _ => let E := fresh "E" in destruct m eqn:E; cbn [bind] in H; [|discriminate H]
          end.
 
+Lemma copy_like_vec_wf c d r : wf d -> copy_like_vec c d = Ok r -> wf r.
+Proof. intros Hd. unfold copy_like_vec. apply set_open_wf. exact Hd. Qed.
+Lemma copy_like_rows_wf rows : forall others r, Forall wf rows -> Forall wf others ->
+  copy_like_rows rows others = Ok r -> Forall wf r.
+Proof.
+  induction rows as [|x rows IH]; intros [|o others] r Hr Ho H; cbn [copy_like_rows] in H; try (inversion H; subst; auto; fail).
+  inversion Hr; subst. inversion Ho; subst.
+  destruct (copy_like_vec x o) eqn:E; cbn [bind] in H; try discriminate.
+  destruct (copy_like_rows rows others) eqn:E2; cbn [bind] in H; try discriminate. inversion H; subst.
+  constructor; [eapply copy_like_vec_wf; eauto | eapply IH; eauto].
+Qed.
+Lemma copy_like_view_wf sel : forall rows k r, Forall wf rows -> copy_like_view rows k sel = Ok r -> Forall wf r.
+Proof.
+  induction sel as [|j sel IH]; intros rows k r Hr H; cbn [copy_like_view] in H; [inversion H; subst; auto|].
+  destruct (Nat.leb (length rows) k); [inversion H; subst; auto|].
+  destruct (Nat.eqb j k); [eapply IH; eauto|].
+  destruct (copy_like_vec (nth k rows []) (nth j rows [])) eqn:E; cbn [bind] in H; try discriminate.
+  eapply IH; [|exact H]. apply Forall_upd; auto. eapply copy_like_vec_wf; [|exact E].
+  apply Forall_nth; auto. constructor.
+Qed.
+Lemma Forall_wf_cells_of_bits rows : Forall wf (map cells_of_bits rows).
+Proof. induction rows; cbn; constructor; auto. apply wf_cells_of_bits. Qed.
+Lemma Forall_wf_of_dense m : Forall wf (map of_dense m).
+Proof. induction m; cbn; constructor; auto. apply wf_of_dense. Qed.
+
 Lemma step_res_wf s o s' r : store_wf s -> step_res false s o = Ok (s', r) -> store_wf s'.
 Proof.
   intros Hs H. destruct o; cbn [step_res] in H.
@@ -749,6 +774,25 @@ Proof.
     + destruct axis as [[|k]|]; try discriminate; eapply red_vecB_new; eauto.
     + eapply red_arrF_new; eauto.
     + unfold red_arrB in O. destruct r0, axis as [[|[|k]]|], keep; cbn in O; inversion O; subst; exact I.
+  - (* OCopyLike *)
+    bindinv H. pose proof (getobj_wf _ _ _ Hs E) as Hx.
+    destruct a as [c ro|b|rows ro|rows]; destruct src as [j|sel]; try discriminate.
+    + destruct (Nat.eqb j i); [okinv; auto|]. bindinv H. pose proof (getobj_wf _ _ _ Hs E0) as Hy.
+      destruct a; try discriminate; bindinv H; okinv; apply store_wf_set; auto; cbn;
+        (eapply copy_like_vec_wf; [|eassumption]); first [exact Hy | apply wf_cells_of_bits].
+    + destruct (Nat.eqb j i); [okinv; auto|]. bindinv H. pose proof (getobj_wf _ _ _ Hs E0) as Hy.
+      destruct a; try discriminate; bindinv H; okinv; apply store_wf_set; auto; cbn;
+        (eapply copy_like_rows_wf; [exact Hx| |eassumption]); first [exact Hy | apply Forall_wf_cells_of_bits].
+    + bindinv H. okinv. apply store_wf_set; auto. cbn. eapply copy_like_view_wf; eauto.
+  - (* OToFlat *)
+    bindinv H. destruct a; repeat match type of H with context [if ?x then _ else _] => destruct x end;
+      try discriminate; okinv; auto.
+  - (* OFromFlat *)
+    bindinv H. pose proof (getobj_wf _ _ _ Hs E) as Hx. destruct a as [c ro|b|rows ro|rows]; try discriminate.
+    + destruct ro; try discriminate. bindinv H. okinv. apply store_wf_set; auto. cbn.
+      eapply vecF_set_wf; eauto. unfold reduce1. destruct l as [|? [|? ?]]; exact I.
+    + destruct (Nat.eqb (length l) (length rows * vsize rows)); try discriminate. okinv.
+      apply store_wf_set; auto. cbn. apply Forall_wf_of_dense.
 Qed.
 
 Lemma xstep_res_wf s o s' r : store_wf s -> xstep_res false s o = Ok (s', r) -> store_wf s'.
@@ -1143,7 +1187,8 @@ Proof. intros H. rewrite empty_cells_map. apply (map_Rv Rc); auto. intros; split
 (* ------------------------------------------------------------------ footprint of one operation *)
 Definition target (o : xop) : option nat :=
   match o with
-  | XOp (OIBin _ i _) | XOp (OClear i) | XOp (OSetRO i) | XOp (OSet i _ _) | XASet i _ _ => Some i
+  | XOp (OIBin _ i _) | XOp (OClear i) | XOp (OSetRO i) | XOp (OSet i _ _) | XASet i _ _
+  | XOp (OCopyLike i _) | XOp (OFromFlat i _) => Some i
   | _ => None
   end.
 Ltac shp H :=
@@ -2140,7 +2185,9 @@ Inductive fop (s : store) : xop -> Prop :=
 | F_abs i c ro : nth_error s i = Some (OV c ro) -> fop s (XOp (OAbs i))
 | F_copy i c ro : nth_error s i = Some (OV c ro) -> fop s (XOp (OCopy i))
 | F_clear i c ro : nth_error s i = Some (OV c ro) -> fop s (XOp (OClear i))
-| F_setro i c ro : nth_error s i = Some (OV c ro) -> fop s (XOp (OSetRO i)).
+| F_setro i c ro : nth_error s i = Some (OV c ro) -> fop s (XOp (OSetRO i))
+| F_copylike i j c d ro : nth_error s i = Some (OV c false) -> nth_error s j = Some (OV d ro) -> length d = length c ->
+    fop s (XOp (OCopyLike i (CObj j))).
 
 Lemma np_arith_err a v w e : a <> Div -> np_arith a v w = Err e -> e = EValue.
 Proof.
@@ -2320,7 +2367,7 @@ Proof.
   intros Hs Ho. destruct Ho as [a i x c ro Ha Ei Hx | a i x c ro Ha Ei Hx Hsh
                               | a i x rows ro Ha Ei Hne Hok | a i x rows Ha Ei Hne Hok Hsh
                               | bo lo i j b b2 Hl Hn Ei Ej Hne | bo lo i j b b2 Hl Hn Ei Ej Hsh
-                              | i c ro Ei | i c ro Ei | i c ro Ei | i c ro Ei | i c ro Ei].
+                              | i c ro Ei | i c ro Ei | i c ro Ei | i c ro Ei | i c ro Ei | i j c d rd Ei Ej Hl].
   3: { eapply step_sim_abin; eauto. }
   3: { eapply step_sim_aibin; eauto. }
   3: { eapply step_sim_lbin; eauto. }
@@ -2365,6 +2412,14 @@ Proof.
     destruct ro; cbn; auto. split; auto. apply sim_upd; auto. cbn. split; auto. now apply empty_refines.
   - unfold xstep. cbn [xstep_res step_res np_step]. unfold getobj. rewrite Ei, Ei'. cbn. split; auto.
     apply sim_upd; auto. cbn. split; auto.
+  - destruct (sim_nth _ _ _ _ Hs Ej) as (o2 & Ej' & Hoo2). destruct o2 as [w rw| | |]; cbn in Hoo2; try contradiction.
+    destruct Hoo2 as [Hdw _].
+    unfold xstep. cbn [xstep_res step_res np_step]. unfold getobj. rewrite Ei, Ei', Ej'. cbn [bind].
+    destruct (Nat.eqb j i) eqn:J; [cbn; auto|].
+    rewrite Ej. cbn [bind]. rewrite (copy_like_vec_same c d Hl). cbn [bind].
+    assert (L : Nat.eqb (length w) (length v) = true).
+    { apply Nat.eqb_eq. now rewrite <- (Rv_length _ _ Hdw), <- (Rv_length _ _ Hcv). }
+    rewrite L. cbn. split; auto. apply sim_upd; auto. cbn. auto.
 Qed.
 
 (* the lift to every history of fragment operations *)
@@ -2424,4 +2479,45 @@ Proof.
   - repeat constructor; eapply readonly_vector_rejects; eauto; left; eauto.
   - eapply readonly_vector_rejects; eauto.
   - intros ix. eapply readonly_vector_rejects; eauto. right; right. eauto.
+Qed.
+
+(* ================================================================== Part 14: copy_like, to_flat_array, from_flat_array *)
+(* copying from the object itself, or from the full selection of its own rows, changes nothing *)
+Lemma copy_like_self lg s i x : nth_error s i = Some x -> (match x with OV _ _ | OA _ _ => True | _ => False end) ->
+  xstep lg s (XOp (OCopyLike i (CObj i))) = (s, RUnit).
+Proof.
+  intros Hi Hx. unfold xstep. cbn [xstep_res step_res]. unfold getobj. rewrite Hi. cbn [bind].
+  destruct x; try contradiction; now rewrite Nat.eqb_refl.
+Qed.
+Lemma copy_like_view_id rows : forall m k, copy_like_view rows k (seq k m) = Ok rows.
+Proof.
+  induction m as [|m IH]; intros k; cbn [seq copy_like_view]; auto.
+  destruct (Nat.leb (length rows) k); auto. now rewrite Nat.eqb_refl.
+Qed.
+(* a vector copied from a vector of its size becomes that vector (and nothing else changes: C09_frame) *)
+Lemma copy_like_vec_same c d : length d = length c -> copy_like_vec c d = Ok d.
+Proof. apply set_open_obj_refines. Qed.
+Lemma copy_like_rows_same rows : forall others, Forall2 (fun r o => length o = length r) rows others ->
+  copy_like_rows rows others = Ok others.
+Proof.
+  induction rows as [|r rows IH]; intros others H; inversion H; subst; cbn [copy_like_rows]; auto.
+  rewrite copy_like_vec_same by auto. cbn [bind]. rewrite IH by auto. reflexivity.
+Qed.
+(* to_flat_array: the content of the buffer is irrelevant *)
+Lemma to_flat_buffer_irrelevant lg s i b1 b2 : length b1 = length b2 ->
+  xstep lg s (XOp (OToFlat i (Some b1))) = xstep lg s (XOp (OToFlat i (Some b2))).
+Proof. intros L. unfold xstep. cbn [xstep_res step_res]. now rewrite L. Qed.
+(* from_flat_array then to_flat_array gives the array back *)
+Lemma concat_chunks n : forall k l, length l = (k * n)%nat -> concat (chunks n k l) = l.
+Proof.
+  induction k as [|k IH]; intros l L; cbn in *.
+  - destruct l; [reflexivity|discriminate].
+  - rewrite IH; [apply firstn_skipn|]. rewrite skipn_length. lia.
+Qed.
+Lemma dense_of_dense_rows m : Forall2 Qeq (concat (map dense (map of_dense m))) (concat m).
+Proof. induction m as [|r m IH]; cbn; [constructor|]. apply Forall2_app; auto. apply dense_of_dense. Qed.
+Theorem flat_round_trip n k l : length l = (k * n)%nat ->
+  Forall2 Qeq (concat (map dense (map of_dense (chunks n k l)))) l /\ Forall wf (map of_dense (chunks n k l)).
+Proof.
+  intros L. split; [|apply Forall_wf_of_dense]. rewrite <- (concat_chunks n k l L) at 2. apply dense_of_dense_rows.
 Qed.
